@@ -559,4 +559,130 @@ example (arr : List Int → Option Val) :
     rfl rfl (by decide) (by decide) (by decide +kernel)
     (by intro h; cases h) (by intro h; cases h) (by decide)
 
+/-! ### the snapped transform (`snap_affine` inside `_check_linear`), up to the entry point -/
+
+/-- **`xr_reproject`, linear path, SNAPPED dependency transform, from the arguments to the pixels.**
+The real code computes the chunk dependencies with `A' = snap_affine(~S * D)` (what `_check_linear` returns), not with
+the pixel map `~S * D` GDAL samples through.  If per axis the drift stays within a quarter of a destination pixel over
+the whole destination raster, `|a - a'|·dstW + |c - c'| ≤ |a'|/4` (same in `y`), then for every nodata option, every
+accepted `chunks=` form and every source chunking the dask-backed result equals the numpy-backed one, pixel for
+pixel — no tiling / dependency / validity hypothesis.  `A'` is whatever the model of `_check_linear` returns at the
+code's tolerances (`hchk`), so its off-diagonal terms are 0 (`check_linear_accepts_only_st`).
+The known findings are exactly outside the bound: K17 (`extreme_zoom_snap_cex`: translation snap at zoom > 500x),
+K23 (`scale_snap_cex`: scale snap on a 2^21 wide raster). -/
+theorem xr_entry_linear_snapped (a : XrArgs) (G : Gdal) (src buf r : Img)
+    (g : List ((Int × Int) × List (Int × Int))) (A' : Aff) (ttol stol tol sttol : Rat) (hst : sttol ≤ tol)
+    (hchk : C12.checkLinear a.S a.D ttol stol tol sttol = .ok (some A'))
+    (hg : C12.gridIntersectLinear ⟨a.dstH, a.dstW, tiling12 a.dstH a.dstW a.sy a.sx a.chunks⟩
+            ⟨a.srcH, a.srcW, ⟨.var (intChunks a.sy), .var (intChunks a.sx)⟩⟩ A' = .ok g)
+    (hr : xrDask a G (depsOfC12 g) src = .ok r)
+    (hsmall : a.chunks.Small) (hsy' : ChunksOK (intChunks a.sy)) (hsx' : ChunksOK (intChunks a.sx))
+    (hb : (a.S.inv * a.D).b = 0) (hd' : (a.S.inv * a.D).d = 0)
+    (ha : (a.S.inv * a.D).a ≠ 0) (he : (a.S.inv * a.D).e ≠ 0)
+    (ha' : A'.a ≠ 0) (he' : A'.e ≠ 0)
+    (hx : |(a.S.inv * a.D).a - A'.a| * ((a.dstW : Int) : Rat) + |(a.S.inv * a.D).c - A'.c| ≤ |A'.a| / 4)
+    (hy : |(a.S.inv * a.D).e - A'.e| * ((a.dstH : Int) : Rat) + |(a.S.inv * a.D).f - A'.f| ≤ |A'.e| / 4)
+    (hbuf : WF buf a.dstH a.dstW)
+    (hsy : a.sy.sum = a.srcH) (hsx : a.sx.sum = a.srcW)
+    (hH : 1 ≤ a.srcH) (hW : 1 ≤ a.srcW)
+    (hS : a.S.det ≠ 0)
+    (hnd1 : NodataOk a.kind (xrNodata a.attrNd a.kwSrcNd a.dstNd).2)
+    (hnd2 : NodataOk a.kind (xrNodata a.attrNd a.kwSrcNd a.dstNd).1)
+    (d : Int × Int) (hd : 0 ≤ d.1 ∧ d.1 < a.dstH ∧ 0 ≤ d.2 ∧ d.2 < a.dstW) :
+    r d = xrNumpy a G src buf d := by
+  obtain ⟨_, _, hb', hd''⟩ := check_linear_accepts_only_st a.S a.D ttol stol tol sttol A' hS hst hchk
+  have hcfg : ∃ c, xrCfg a (depsOfC12 g) = .ok c := by
+    unfold xrDask at hr
+    cases h : xrCfg a (depsOfC12 g) with
+    | error e => rw [h] at hr; simp [bind, Except.bind] at hr
+    | ok c => exact ⟨c, rfl⟩
+  obtain ⟨c, hc⟩ := hcfg
+  have hc' := hc
+  unfold xrCfg at hc'
+  cases ht : dstTilings a.dstH a.dstW a.sy a.sx a.chunks with
+  | error e => rw [ht] at hc'; simp [bind, Except.bind] at hc'
+  | ok t =>
+    obtain ⟨dy, dx⟩ := t
+    rw [ht] at hc'
+    simp only [bind, Except.bind, pure, Except.pure, Except.ok.injEq] at hc'
+    obtain ⟨hry, hrx⟩ := dstTilings_rel _ _ _ _ _ hsmall _ _ ht
+    obtain ⟨hdy, hdx⟩ := dstTilings_chain _ _ _ _ _ _ _ ht
+    have h1 := chunksTiling_isTiling a.sy
+    have h2 := chunksTiling_isTiling a.sx
+    rw [hsy] at h1
+    rw [hsx] at h2
+    let dst12 : C12.GBT := ⟨a.dstH, a.dstW, tiling12 a.dstH a.dstW a.sy a.sx a.chunks⟩
+    let src12 : C12.GBT := ⟨a.srcH, a.srcW, ⟨.var (intChunks a.sy), .var (intChunks a.sx)⟩⟩
+    have hw : src12.WF :=
+      ⟨hsy', hsx', by simp only [src12, Tiling.base]; rw [vbase_eq_total _ hsy', total_intChunks, hsy],
+        by simp only [src12, Tiling.base]; rw [vbase_eq_total _ hsx', total_intChunks, hsx],
+        by simp only [src12]; omega, by simp only [src12]; omega⟩
+    have hvalid : DepsValid c := by
+      subst hc'
+      exact depsValid_of_linear dst12 src12 hw _ g hg _ _ (tilingRel_var a.sy hsy') (tilingRel_var a.sx hsx')
+    refine xr_entry_chunked_eq_whole a G (depsOfC12 g) src buf r c hc hr hbuf hsy hsx hS hvalid ?_ hnd1 hnd2 d hd
+    subst hc'
+    refine deps_complete_of_linear_tol _ dst12 src12
+      ⟨tilingRel_var a.sy hsy', tilingRel_var a.sx hsx', hry, hrx, rfl, rfl⟩ hw h1 h2 hb hd' ha he A' hb' hd'' ha' he'
+      hdy hdx hx hy ?_
+    intro iy ix l hiy hix hl i j hmem
+    dsimp only at hiy hix
+    have hlook := lookup_depsOfC12 (C12.linearDeps dst12 src12 A') iy ix l hl
+      (C12.allTiles dst12) g hg
+      (by
+        intro t ht'
+        simp only [C12.allTiles, C12.mem_product, C12.mem_irange] at ht'
+        exact ⟨ht'.1.1, ht'.2.1⟩)
+      (by
+        simp only [C12.allTiles, C12.mem_product, C12.mem_irange]
+        have e1 : dst12.tiles.y.count = (dy.length : Int) := hry.count
+        have e2 : dst12.tiles.x.count = (dx.length : Int) := hrx.count
+        rw [e1, e2]
+        omega)
+    show (i, j) ∈ lookupDeps (depsOfC12 g) (iy, ix)
+    rw [hlook]
+    exact List.mem_map.2 ⟨((i : Int), (j : Int)), hmem, by simp [idxToNat]⟩
+
+/-- a destination grid shifted by 2^-11 source pixels: `_check_linear` snaps the shift away -/
+def snapArgs : XrArgs := { cexArgs with D := ⟨1, 0, 1 / 2048, 0, 1, 0⟩ }
+
+theorem snapArgs_checkLinear :
+    C12.checkLinear snapArgs.S snapArgs.D (1 / 1000) (1 / 1000000) (1 / 100000000) (1 / 10000000000) = .ok (some Aff.id) := by
+  decide +kernel
+
+/-- all hypotheses of `xr_entry_linear_snapped` hold together on a transform that IS snapped -/
+example : ∃ r, xrDask snapArgs cexGdal (depsOfC12 [((0, 0), [(0, 0)])]) (full 1 1 (.num 5)) = .ok r ∧
+    r (0, 0) = xrNumpy snapArgs cexGdal (full 1 1 (.num 5)) (full 1 2 (.num 77)) (0, 0) := by
+  have hr : ∃ r, xrDask snapArgs cexGdal (depsOfC12 [((0, 0), [(0, 0)])]) (full 1 1 (.num 5)) = .ok r := ⟨_, rfl⟩
+  obtain ⟨r, hr⟩ := hr
+  refine ⟨r, hr, ?_⟩
+  have hA : snapArgs.S.inv * snapArgs.D = ⟨1, 0, 1 / 2048, 0, 1, 0⟩ := by decide +kernel
+  exact xr_entry_linear_snapped snapArgs cexGdal _ (full 1 2 (.num 77)) r _ Aff.id (1 / 1000) (1 / 1000000)
+    (1 / 100000000) (1 / 10000000000) (by norm_num) snapArgs_checkLinear (by decide +kernel) hr trivial
+    ⟨by decide, by decide⟩ ⟨by decide, by decide⟩ (by rw [hA]) (by rw [hA]) (by rw [hA]; norm_num) (by rw [hA]; norm_num)
+    (by decide +kernel) (by decide +kernel)
+    (by rw [hA]; norm_num [Aff.id, snapArgs, cexArgs, abs_of_pos])
+    (by rw [hA]; norm_num [Aff.id, snapArgs, cexArgs])
+    (by intro p; simp only [full, snapArgs, cexArgs]; split <;> simp_all)
+    rfl rfl (by decide) (by decide) (by decide +kernel)
+    (by intro h; cases h) (by intro h; cases h) (0, 0) (by decide)
+
+/-! ### the known findings lie exactly outside the drift bound of `xr_entry_linear_snapped` -/
+
+/-- K17 (translation snapped at 2048x zoom): the snap moves the map by 2^-11 source pixels = one destination pixel,
+four times the quarter-pixel budget `|a'|/4 = 2^-13` -/
+theorem k17_outside_bound :
+    ¬ (|(k17S.inv * k17D).a - k17A'.a| * ((2056 : Int) : Rat) + |(k17S.inv * k17D).c - k17A'.c| ≤ |k17A'.a| / 4) := by
+  have hA : k17S.inv * k17D = ⟨1 / 2048, 0, 2049 / 2048, 0, 1 / 2048, 1 / 2⟩ := by decide +kernel
+  rw [hA]
+  norm_num [k17A']
+
+/-- K23 (scale `1 + 2^-21` snapped to 1 on a raster 2^21 + 8 pixels wide): the accumulated drift exceeds one source
+pixel, the budget is a quarter -/
+theorem k23_outside_bound :
+    ¬ (|(k23S.inv * k23D).a - Aff.id.a| * ((2097152 + 8 : Int) : Rat) + |(k23S.inv * k23D).c - Aff.id.c| ≤ |Aff.id.a| / 4) := by
+  have hA : k23S.inv * k23D = ⟨1 + 1 / 2097152, 0, 0, 0, 1, 0⟩ := by decide +kernel
+  rw [hA]
+  norm_num [Aff.id]
+
 end OdcGeo.C13
